@@ -13,14 +13,17 @@ def level_res(z, ts=TS):
     return 2 * H / (ts * (1 << z))
 
 
-def expected_rg(coord, ts=TS):
+DIM_SHIFT = {None: 0, '2020': 64, '2021': 128}     # a request's dimension value (time=...) moves the G channel
+
+
+def expected_rg(coord, ts=TS, shift=0):
     """list of rows, each a list of (r, g) for the tile (x, y, z), origin 'll'"""
     x, y, z = coord
     n = 1 << z
     rows = []
     for j in range(ts):
         gy = (n - 1 - y) * ts + j
-        rows.append([((x * ts + i) & 255, gy & 255) for i in range(ts)])
+        rows.append([((x * ts + i) & 255, (gy + shift) & 255) for i in range(ts)])
     return rows
 
 
@@ -38,7 +41,7 @@ def is_ocean_tile(coord):
     return is_ocean(x, (1 << z) - 1 - y)
 
 
-def render(bbox, size, gen, ts=TS, ocean=False):
+def render(bbox, size, gen, ts=TS, ocean=False, shift=0):
     """raw RGB bytes for a query"""
     w, h = size
     res = (bbox[2] - bbox[0]) / float(w)
@@ -49,7 +52,7 @@ def render(bbox, size, gen, ts=TS, ocean=False):
     g = gen & 255
     for j in range(h):
         gyy = gy0 + j
-        gy = gyy & 255
+        gy = (gyy + shift) & 255
         for i in range(w):
             if ocean and is_ocean((gx0 + i) // ts, gyy // ts):
                 out[k], out[k + 1], out[k + 2] = ocean if isinstance(ocean, tuple) else OCEAN
@@ -61,7 +64,7 @@ def render(bbox, size, gen, ts=TS, ocean=False):
     return bytes(out)
 
 
-def check_tile_image(img, coord, ts=TS, ocean=False):
+def check_tile_image(img, coord, ts=TS, ocean=False, shift=0):
     """returns (ok, generation or None, message)"""
     img = img.convert('RGB')
     if img.size != (ts, ts):
@@ -71,7 +74,7 @@ def check_tile_image(img, coord, ts=TS, ocean=False):
         if data != bytes(OCEAN) * (ts * ts):
             return False, None, 'ocean tile is not the constant ocean colour'
         return True, None, ''
-    exp = expected_rg(coord, ts)
+    exp = expected_rg(coord, ts, shift)
     gens = set()
     k = 0
     for j in range(ts):
@@ -139,7 +142,8 @@ class SimSource(object):
         sh['gen'] += 1
         gen = sh['gen']
         me = sched._me() if sched is not None else None
-        entry = {'gen': gen, 'bbox': tuple(query.bbox), 'size': tuple(query.size), 'task': me.name if me else None,
+        dim = (getattr(query, 'dimensions', None) or {}).get('time')
+        entry = {'gen': gen, 'dim': dim, 'bbox': tuple(query.bbox), 'size': tuple(query.size), 'task': me.name if me else None,
                  'proc': me.proc.name if me else None, 't0': self.world.clock.now, 'ok': None,
                  'seq0': len(sched.log) if sched is not None else 0}
         sh['log'].append(entry)
@@ -159,7 +163,7 @@ class SimSource(object):
         if sched is not None:
             sched.check_alive()
         entry['ok'] = True
-        img = Image.frombytes('RGB', tuple(query.size), render(query.bbox, query.size, gen, ocean=bool(sh.get('ocean'))))
+        img = Image.frombytes('RGB', tuple(query.size), render(query.bbox, query.size, gen, ocean=bool(sh.get('ocean')), shift=DIM_SHIFT.get(dim, 0)))
         cacheable = True
         if sh.get('src_age'):
             # a source that knows how old its data is (as a cache used as the source of another cache does): the
